@@ -29,6 +29,10 @@ func propC08(c *Ctx) string {
 	c08Setup(c, v)
 	c08QueueKeep(c, v)
 	c08Offline(c, v)
+	// one message object is queued for every matching session: a QoS cap written into it (instead of a copy)
+	// turns another session's QoS>0 delivery into an unrecorded QoS 0 one
+	c06Cap(c, v)
+	c06Immut(c, v)
 	c.NotDecide("every failure position at runtime (crash points), repeated failures during resend",
 		"that a custom Session really persists what SavePacket was given", "queue capacity limits (messages beyond SessionQueueSize are dropped by design)")
 	c.Assume("instance-insensitive field keys", "Session interface contracts as documented in broker/client.go")
